@@ -99,6 +99,11 @@ struct Cfg {
     dga: bool,      // datagrams enabled (receive buffer) on the adapter side
     dgp: bool,      // ... on the peer side
     hs: Hs,         // special connection set-up
+    /// `dgmax=<n>`: the line says what Quinn's `max_datagram_size()` is on the adapter side (the model's environment
+    /// parameter; op `dgmax` prints the real value).  To make that a constant of the case, MTU discovery is switched
+    /// off on both sides (the path MTU stays at `mtu=<n>`, default Quinn's initial 1200).
+    dgmax: Option<u64>,
+    mtu: Option<u16>,
 }
 
 #[derive(Clone, Copy, PartialEq)]
@@ -125,6 +130,7 @@ fn parse_cfg(s: &str) -> Option<Cfg> {
     let mut c = Cfg {
         sw: 0, cw: 0, tw: 0, client: true, kind: Kind::Bi, open: true, skip: 0, idle: 0,
         split: true, mb: None, mu: None, dga: true, dgp: true, hs: Hs::Normal,
+        dgmax: None, mtu: None,
     };
     for kv in s.split(',') {
         let (k, v) = kv.split_once('=')?;
@@ -142,6 +148,8 @@ fn parse_cfg(s: &str) -> Option<Cfg> {
             "mu" => c.mu = Some(v.parse().ok()?),
             "dga" => c.dga = match v { "1" => true, "0" => false, _ => return None },
             "dgp" => c.dgp = match v { "1" => true, "0" => false, _ => return None },
+            "dgmax" => c.dgmax = Some(v.parse().ok()?),
+            "mtu" => c.mtu = Some(v.parse::<u16>().ok().filter(|m| (1200..=1452).contains(m))?),
             "hs" => c.hs = match v {
                 "rej" => Hs::Rej, "kill" => Hs::Kill, "z0" => Hs::Z0, "z0r" => Hs::Z0R, "z0t" => Hs::Z0T, "z0v" => Hs::Z0V,
                 _ => return None,
@@ -150,6 +158,9 @@ fn parse_cfg(s: &str) -> Option<Cfg> {
         }
     }
     if c.skip > 64 {
+        return None;
+    }
+    if c.mtu.is_some() && c.dgmax.is_none() {
         return None;
     }
     if !c.split && c.kind != Kind::Bi {
@@ -193,9 +204,12 @@ fn transport(c: &Cfg, peer: bool) -> Arc<TransportConfig> {
         t.send_window(c.tw);
     }
     t.initial_rtt(Duration::from_millis(10));
-    if c.hs == Hs::Kill {
-        // no packet of Quinn's own making while the peer is being replaced
+    if c.hs == Hs::Kill || c.dgmax.is_some() {
+        // no packet of Quinn's own making while the peer is being replaced / a constant maximal datagram size
         t.mtu_discovery_config(None);
+    }
+    if let Some(m) = c.mtu {
+        t.initial_mtu(m);
     }
     // ask the peer to acknowledge every packet at once: with a tiny send window every byte waits for
     // an ACK, and Quinn's default 25 ms ACK delay would make such cases needlessly slow
@@ -682,6 +696,8 @@ fn spawn_peer<F: std::future::Future<Output = ()> + 'static + Send>(pt: &PTasks,
 enum Opened {
     Bi(ABidi),
     Uni(ASend),
+    /// a stream opened, written and finished by `sdm` (its type parameter is not `Bytes`): keeps the indices aligned
+    Done,
 }
 
 fn ids_of_bidi(b: &ABidi) -> String {
@@ -708,6 +724,8 @@ fn dgram_err(e: &SendDatagramErrorIncoming) -> String {
 async fn scenario(cfg: Cfg, ops: Vec<String>) -> String {
     let Some(link) = connect(&cfg).await else { return "setup-failed".into() };
     let Link { mut eps, aconn, pconn, pconn_later, accepted, mut killer } = link;
+    // a second handle of the adapter side's Quinn connection, for `dgmax` only (weak would be nicer: it is dropped with `a`)
+    let araw = aconn.clone();
     let mut a = h3_quinn::Connection::new(aconn);
     let mut out: Vec<String> = Vec::new();
     let ptasks: PTasks = Arc::new(std::sync::Mutex::new(Vec::new()));
@@ -1172,6 +1190,49 @@ async fn scenario(cfg: Cfg, ops: Vec<String>) -> String {
                     }
                 }
             }
+            // sdm:<n>:<seed>:<cut>,<cut>…  the `Chain` variant of `sd`: a uni stream whose buffer type is the multi-chunk
+            // `e_c16::Chunks` is opened through the Connection, ONE DATA frame whose payload is cut at these positions
+            // is handed to send_data, poll_ready is awaited, the stream finished; the peer reads it with `pacc:uni:1`.
+            // Only when every stream opened before has been written (`otag`), so that the indices stay aligned.
+            "sdm" => {
+                use crate::e_c16::Chunks;
+                let (Some(n), Some(seed), Some(cuts)) = (num(1), num(2), p.get(3)) else { return "bad-op".into() };
+                if opened.iter().any(|(_, tagged)| !*tagged) {
+                    return "bad-op".into();
+                }
+                let whole = payload(n as usize, seed);
+                let mut at = vec![0usize];
+                for c in cuts.split(',') {
+                    let Ok(c) = c.parse::<usize>() else { return "bad-op".into() };
+                    if c <= *at.last().unwrap() || c >= n as usize {
+                        return "bad-op".into();
+                    }
+                    at.push(c);
+                }
+                at.push(n as usize);
+                let chunks = Chunks(at.windows(2).map(|w| whole.slice(w[0]..w[1])).collect());
+                let f = poll_fn(|cx| h3::quic::OpenStreams::<Chunks>::poll_open_send(&mut a, cx));
+                match tokio::time::timeout(OP_TIMEOUT, f).await {
+                    Err(_) => "sdm=timeout".into(),
+                    Ok(Err(e)) => format!("sdm=err:{}", stream_err(&e)),
+                    Ok(Ok(mut st)) => {
+                        let id = st.send_id().into_inner();
+                        opened.push((Opened::Done, true));
+                        let r = match st.send_data(WriteBuf::from(Frame::Data(chunks))) {
+                            Err(e) => Err(e),
+                            Ok(()) => match tokio::time::timeout(OP_TIMEOUT, poll_fn(|cx| st.poll_ready(cx))).await {
+                                Err(_) => return "sdm=write-timeout".into(),
+                                Ok(Err(e)) => Err(e),
+                                Ok(Ok(())) => poll_fn(|cx| st.poll_finish(cx)).await,
+                            },
+                        };
+                        match r {
+                            Ok(()) => format!("sdm={}", id),
+                            Err(e) => format!("sdm=err:{}@write", stream_err(&e)),
+                        }
+                    }
+                }
+            }
             "otag" => {
                 // every stream opened by `ob`/`ou` and not yet used gets one DATA frame (n + j bytes for
                 // the j-th opened stream) and is finished, the bidirectional ones through the UNSPLIT stream
@@ -1201,6 +1262,7 @@ async fn scenario(cfg: Cfg, ops: Vec<String>) -> String {
                                 Ok(Ok(())) => poll_fn(|cx| s.poll_finish(cx)).await,
                             },
                         },
+                        Opened::Done => Ok(()),
                     };
                     match r {
                         Ok(()) => cnt += 1,
@@ -1250,18 +1312,69 @@ async fn scenario(cfg: Cfg, ops: Vec<String>) -> String {
                 }
             }
             // ---------------- adapter, datagrams (`h3_quinn::datagram`)
+            // what Quinn says its maximal datagram size is right now (the model's environment parameter `dgmax=`)
+            "dgmax" => match araw.max_datagram_size() {
+                Some(n) => format!("dgmax={}", n),
+                None => "dgmax=none".into(),
+            },
+            // the handlers are created anew by the next datagram op
+            "dgh" => {
+                dsend = None;
+                drecv = None;
+                "dgh".into()
+            }
             "dgs" => {
-                // send_datagram(Datagram::new(stream id, n payload bytes).encode())
+                // send_datagram(Datagram::new(stream id, n payload bytes).encode());
+                // dgs:<sid>:<n>:<seed>:<cut>,<cut>…  the payload is a NON-CONTIGUOUS Buf cut at these positions
                 let (Some(sid), Some(n), Some(seed)) = (num(1), num(2), num(3)) else { return "bad-op".into() };
                 if sid % 4 != 0 {
                     return "bad-op".into();
                 }
                 let Ok(sid) = h3::quic::StreamId::try_from(sid) else { return "bad-op".into() };
+                // without `dgmax=` the maximum moves with MTU discovery: sizes it may or may not admit are not a case
+                if cfg.dgmax.is_none() {
+                    let wire = n + H3VarInt::from_u64(sid.into_inner() / 4).map(|v| v.size() as u64).unwrap_or(8);
+                    if wire > 1100 && wire <= 1500 {
+                        return "bad-op".into();
+                    }
+                }
                 let h = dsend.get_or_insert_with(|| DatagramConnectionExt::<Bytes>::send_datagram_handler(&a));
-                let d = h3_datagram::datagram::Datagram::new(sid, payload(n as usize, seed)).encode();
-                match h.send_datagram(d) {
+                let r = match p.get(4) {
+                    None => h.send_datagram(h3_datagram::datagram::Datagram::new(sid, payload(n as usize, seed)).encode()),
+                    Some(cuts) => {
+                        let whole = payload(n as usize, seed);
+                        let mut at = vec![0usize];
+                        for c in cuts.split(',') {
+                            let Ok(c) = c.parse::<usize>() else { return "bad-op".into() };
+                            if c <= *at.last().unwrap() || c >= n as usize {
+                                return "bad-op".into();
+                            }
+                            at.push(c);
+                        }
+                        at.push(n as usize);
+                        let chunks = crate::e_c16::Chunks(at.windows(2).map(|w| whole.slice(w[0]..w[1])).collect());
+                        h.send_datagram(h3_datagram::datagram::Datagram::new(sid, chunks).encode())
+                    }
+                };
+                match r {
                     Ok(()) => "dgs=ok".into(),
                     Err(e) => format!("dgs={}", dgram_err(&e)),
+                }
+            }
+            // read one datagram and decode it (h3-datagram): stream id and payload
+            "dgrd" => {
+                let h = drecv.get_or_insert_with(|| DatagramConnectionExt::<Bytes>::recv_datagram_handler(&a));
+                match tokio::time::timeout(OP_TIMEOUT, poll_fn(|cx| h.poll_incoming_datagram(cx))).await {
+                    Err(_) => "dgrd=timeout".into(),
+                    Ok(Err(e)) => format!("dgrd=err:{}", conn_err(&e)),
+                    Ok(Ok(b)) => match h3_datagram::datagram::Datagram::decode(b) {
+                        Ok(d) => {
+                            let mut hh = Hash::new();
+                            hh.feed(d.payload());
+                            format!("dgrd={}:{}", d.stream_id().into_inner(), hh.show())
+                        }
+                        Err(_) => "dgrd=datagram-error".into(),
+                    },
                 }
             }
             "dgr1" | "dgr" => {
@@ -1433,7 +1546,20 @@ async fn scenario(cfg: Cfg, ops: Vec<String>) -> String {
             }
             "pdgs" => {
                 let (Some(n), Some(seed), Some(pc)) = (num(1), num(2), peer.conn.as_ref()) else { return "bad-op".into() };
-                match pc.send_datagram(payload(n as usize, seed)) {
+                // pdgs:<n>:<seed>:<sid>  the peer sends an HTTP datagram: varint(sid/4) in front of the payload
+                let body = match p.get(3) {
+                    None => payload(n as usize, seed),
+                    Some(sid) => {
+                        let Some(q) = sid.parse::<u64>().ok().filter(|s| s % 4 == 0).and_then(|s| H3VarInt::from_u64(s / 4).ok()) else {
+                            return "bad-op".into();
+                        };
+                        let mut v = bytes::BytesMut::new();
+                        q.encode(&mut v);
+                        v.extend_from_slice(&payload(n as usize, seed));
+                        v.freeze()
+                    }
+                };
+                match pc.send_datagram(body) {
                     Ok(()) => "pdgs".into(),
                     Err(_) => "pdgs=failed".into(),
                 }
